@@ -282,7 +282,7 @@ func lenCmpZero(inf *types.Info, f core.Fact) (arg ast.Expr, empty bool, ok bool
 	if cv == nil || !isCall || len(call.Args) != 1 {
 		return nil, false, false
 	}
-	if b, isB := core.ObjOf(inf, call.Fun).(*types.Builtin); !isB || b.Name() != "len" {
+	if b, isB := core.ObjOf(inf, call.Fun).(*types.Builtin); !isB || core.NameOf(b) != "len" {
 		return nil, false, false
 	}
 	k := cv.ExactString()
@@ -454,7 +454,7 @@ func runR192(c *core.Ctx) {
 				why[cls] = msg
 			}
 		}
-		core.NewFlow(c.M, inf, fd.Body).Run(&core.Automaton{
+		core.NewFlow(c.M, inf, fd.Body).Run(core.TrackVals(inf, fd.Body, &core.Automaton{
 			AtEnd: true,
 			Node: func(state int, n ast.Node) int {
 				action, idx := state%5, state/5
@@ -493,7 +493,7 @@ func runR192(c *core.Ctx) {
 					}
 				}
 				for _, call := range core.CallsIn(n) {
-					if b, ok := core.ObjOf(inf, call.Fun).(*types.Builtin); ok && b.Name() == "delete" && len(call.Args) == 2 {
+					if b, ok := core.ObjOf(inf, call.Fun).(*types.Builtin); ok && core.NameOf(b) == "delete" && len(call.Args) == 2 {
 						if base, ok := fieldNamed(inf, call.Args[0], su, "uris"); ok {
 							if idx != 0 && core.ObjOf(inf, base) == copyVar(idx) && core.ObjOf(inf, call.Args[1]) == pathVar && (action == aCopy || action == aDel) {
 								action = aDel
@@ -558,7 +558,7 @@ func runR192(c *core.Ctx) {
 				}
 				return state, true
 			},
-		})
+		}))
 		if !reached {
 			fail(fmt.Sprintf("for an event with %s no return is reached", describe(w)))
 		}
@@ -607,7 +607,7 @@ func runR192(c *core.Ctx) {
 				if !ok {
 					continue
 				}
-				if cf := core.Callee(inf, call); cf != nil && cf.Name() == "Store" && len(call.Args) == 2 {
+				if cf := core.Callee(inf, call); cf != nil && core.NameOf(cf) == "Store" && len(call.Args) == 2 {
 					if isFold(call.Args[1]) || (folded[core.ObjOf(inf, call.Args[1])] && core.ObjOf(inf, call.Args[1]) != nil) {
 						okLoop = true
 					}
@@ -694,7 +694,19 @@ func runR193(c *core.Ctx) {
 	filtered := func(at ast.Node, host ast.Expr) bool {
 		return core.GuardedByFact(inf, par, at, func(f core.Fact) bool {
 			fcall, ok := core.Unparen(f.Expr).(*ast.CallExpr)
-			return ok && f.Val && core.ObjOf(inf, fcall.Fun) == filterParam && filterParam != nil && len(fcall.Args) == 1 && core.SameExpr(inf, fcall.Args[0], host)
+			if !ok || !f.Val || filterParam == nil || len(fcall.Args) != 1 || !core.SameExpr(inf, fcall.Args[0], host) {
+				return false
+			}
+			if core.ObjOf(inf, fcall.Fun) == filterParam {
+				return true
+			}
+			// the filter as a one-method interface: filter.accepts(host)
+			if sel, ok := core.Unparen(fcall.Fun).(*ast.SelectorExpr); ok && core.ObjOf(inf, sel.X) == filterParam {
+				if it, ok := filterParam.Type().Underlying().(*types.Interface); ok && it.NumMethods() == 1 {
+					return true
+				}
+			}
+			return false
 		}, nil)
 	}
 	provenance, nHosts := "", 0
@@ -833,7 +845,7 @@ func runR193(c *core.Ctx) {
 			return false
 		}
 		b, ok := core.ObjOf(inf, call.Fun).(*types.Builtin)
-		return ok && b.Name() == "len" && core.ObjOf(inf, call.Args[0]) == schemes
+		return ok && core.NameOf(b) == "len" && core.ObjOf(inf, call.Args[0]) == schemes
 	}
 	// loops that visit the schemes in slice order: `range schemes`, or i from 0 by 1 while i < len(schemes) (and,
 	// optionally, while nothing has been chosen yet)
@@ -934,11 +946,43 @@ func runR193(c *core.Ctx) {
 			arg = core.Unparen(defs[o][0])
 		}
 		lit, ok := arg.(*ast.FuncLit)
+		// the filter as a value of a small type implementing a one-method interface: the method body plays the part of
+		// the literal, with the receiver standing for what the value was built from
+		recvStandsFor := map[types.Object]ast.Expr{}
 		if !ok {
-			return kOther
+			nn := namedOf(inf.Types[arg].Type)
+			var md *ast.FuncDecl
+			if nn != nil {
+				for i := 0; i < nn.NumMethods(); i++ {
+					if d := c.M.Decl(nn.Method(i).Origin()); d != nil && d.Body != nil && d.Type.Results != nil && len(d.Type.Results.List) == 1 {
+						if md != nil {
+							return kOther
+						}
+						md = d
+					}
+				}
+			}
+			if md == nil {
+				return kOther
+			}
+			if r := recvObj(inf, md); r != nil {
+				switch x := arg.(type) {
+				case *ast.CallExpr: // conversion T(x)
+					if tv, isConv := inf.Types[x.Fun]; isConv && tv.IsType() && len(x.Args) == 1 {
+						recvStandsFor[r] = x.Args[0]
+					}
+				}
+			}
+			lit = &ast.FuncLit{Type: md.Type, Body: md.Body}
 		}
 		rets := core.ReturnsIn(lit.Body)
-		if len(rets) == 0 || len(core.CallsIn(lit.Body)) > 0 {
+		realCalls := 0
+		for _, cc := range core.CallsIn(lit.Body) {
+			if tv, isConv := inf.Types[cc.Fun]; !isConv || !tv.IsType() {
+				realCalls++
+			}
+		}
+		if len(rets) == 0 || realCalls > 0 {
 			return kOther
 		}
 		allTrue := true
@@ -965,6 +1009,21 @@ func runR193(c *core.Ctx) {
 		sel, ok := core.Unparen(l).(*ast.SelectorExpr)
 		if !ok || sel.Sel.Name != "Scheme" || core.ObjOf(inf, sel.X) != p {
 			return kOther
+		}
+		// string(recv) / recv of a converted value is the value it was converted from
+		for depth := 0; depth < 3; depth++ {
+			r = core.Unparen(r)
+			if conv, ok := r.(*ast.CallExpr); ok && len(conv.Args) == 1 {
+				if tv, isConv := inf.Types[conv.Fun]; isConv && tv.IsType() {
+					r = conv.Args[0]
+					continue
+				}
+			}
+			if e, ok := recvStandsFor[core.ObjOf(inf, r)]; ok {
+				r = e
+				continue
+			}
+			break
 		}
 		if loop := enclosingLoop(call); loop != nil && isCurrentScheme(r, loop) {
 			return kScheme
